@@ -229,6 +229,11 @@ def check(case: Dict[str, Any]) -> CaseInfo:
             df = ta.t.get_trace(rd["rank"])
             if check_rank(complete_rows(rd["events"]), df, shift, cg, rd["rank"], classes):
                 nontrivial = True
+    if len(case["ranks"]) >= 2:
+        ann = [any(e.get("name", "").startswith("## backward ##") for e in rd["events"]) for rd in case["ranks"]]
+        auto = [any("autograd::" in e.get("name", "") for e in rd["events"]) for rd in case["ranks"]]
+        if any(ann) and any(au and not an for an, au in zip(ann, auto)):
+            classes.append("only_some_ranks_have_a_backward_annotation")
     return CaseInfo(nontrivial=nontrivial, classes=classes)
 
 
@@ -238,6 +243,11 @@ def c13_case(draw):
     o = Opts(early_kernels=True, steps=[0, 1, 2, 3] if not autograd else [1, 2, 3, 0], w_launch=7, w_sync=2, w_op=6, w_rt=1, max_top=4, max_depth=4,
              streams=2, second_thread=True, autograd=autograd, device_sync=False, allow_zero_call=False, backward_ann=autograd,
              force_second_thread=autograd, cuda_events=True)
+    if autograd and draw(st.sampled_from([True, False, False])):
+        # the annotation on one rank only: the other rank must fall back to its profiler steps (the symbol table is shared)
+        o.backward_ann_ranks = draw(st.sampled_from([[0], [1]]))
+        case = draw(sim_case(o, max_ranks=2, nranks_choices=[2]))
+        return case
     case = draw(sim_case(o, max_ranks=2))
     return case
 
@@ -251,5 +261,6 @@ def view(case):
 def campaigns(tier: str) -> List[Campaign]:
     return [Campaign("call_graph", c13_case(), check, quick=320, thorough=14400, quick_shards=8,
                      required_classes={"depth>=3": 0.15, "kernels_from_several_children": 0.3, "main_and_autograd_thread": 0.12,
-                                       "reparented_operator": 0.06, "has_backward_annotation": 0.05, "multi_thread": 0.3},
+                                       "reparented_operator": 0.06, "has_backward_annotation": 0.05, "multi_thread": 0.3,
+                                       "only_some_ranks_have_a_backward_annotation": 0.05},
                      sample_view=view)]
